@@ -597,7 +597,16 @@ class DatasetProcessor:
             else:
                 # --read_assignments was added to a command line that still names the alignment / read files: these files are
                 # not read, the experiment they describe is restarted from the (first) prefix, as it always was
-                saves_file = self.args.read_assignments[0]
+                samples = self.args.input_data.samples
+                if len(self.args.read_assignments) == len(samples):
+                    # one prefix per experiment, in the order of the experiments
+                    saves_file = self.args.read_assignments[samples.index(sample)]
+                elif len(samples) == 1:
+                    saves_file = self.args.read_assignments[0]
+                else:
+                    logger.critical("%d experiments but %d --read_assignments prefixes: give one prefix per experiment" %
+                                    (len(samples), len(self.args.read_assignments)))
+                    exit(-1)
             saved_file_count, saved_read_group = self.load_run_setup(saves_file)
             if saved_file_count > 0:
                 input_file_count = saved_file_count
